@@ -265,7 +265,7 @@ SAN_ENV = {
                     "exitcode=86:allocator_may_return_null=1",
     "UBSAN_OPTIONS": "print_stacktrace=1:halt_on_error=1:exitcode=87",
     "LSAN_OPTIONS": "exitcode=88",
-    "TSAN_OPTIONS": "halt_on_error=0:second_deadlock_stack=1:history_size=4:exitcode=66",
+    "TSAN_OPTIONS": "halt_on_error=0:second_deadlock_stack=1:history_size=4:exitcode=66:symbolize=0",
 }
 
 
@@ -372,11 +372,39 @@ def _tsan_frame_fn(line):
     return _clean_fn(t)
 
 
-def tsan_reports(err):
-    """Split TSan output into report blocks; return list of (kind, key, text).
-    key = first 3 interesting frames of each of the two stacks involved."""
+_OFF = re.compile(r"\((\S+?)\+(0x[0-9a-f]+)\)")
+
+
+def _symbolize(exe, offsets):
+    """offsets -> function name (innermost non-inlined + inlined chain head) via llvm-symbolizer"""
+    if not offsets:
+        return {}
+    tool = shutil.which("llvm-symbolizer-14") or shutil.which("llvm-symbolizer")
+    out = {}
+    if not tool:
+        return out
+    inp = "\n".join(offsets) + "\n"
+    try:
+        r = subprocess.run([tool, "--obj=" + exe, "--functions=linkage", "--demangle", "--inlines"],
+                           input=inp, capture_output=True, text=True, timeout=300)
+    except Exception:
+        return out
+    blocks = r.stdout.split("\n\n")
+    for off, blk in zip(offsets, blocks):
+        lines = [l for l in blk.split("\n") if l.strip()]
+        # pairs: function, file:line ; first pair is the innermost inlined frame
+        fns = lines[0::2]
+        out[off] = fns
+    return out
+
+
+def tsan_reports(err, exe=None):
+    """Split TSan output (run with symbolize=0) into report blocks; returns list of (kind, key, text).
+    key = first 3 interesting functions of each of the two stacks involved (symbolized offline, because
+    TSan's own symbolizer garbles the very long template names of this code base)."""
     blocks = re.split(r"(?m)^={18}\n", err)
-    out = []
+    reports = []
+    need = []
     for b in blocks:
         m = re.search(r"WARNING: ThreadSanitizer: ([^\n(]*)", b)
         if not m:
@@ -385,25 +413,44 @@ def tsan_reports(err):
         stacks = []
         cur = None
         for ln in b.split("\n"):
-            if re.match(r"^  \S", ln):  # a section header ("  Write of size ...", "  Previous ...", "  Thread T1 ...")
+            if re.match(r"^  \S", ln):
                 if cur:
                     stacks.append(cur)
                 cur = [ln.strip(), []]
                 continue
-            f = _tsan_frame_fn(ln)
-            if f is not None and cur is not None:
-                if not any(f.startswith(x) for x in _TSAN_SKIP) and f:
-                    cur[1].append(f)
+            mm = re.match(r"^\s+#\d+ (.*)$", ln)
+            if mm and cur is not None:
+                mo = _OFF.search(ln)
+                if mo and exe and os.path.basename(exe) == mo.group(1):
+                    cur[1].append(("off", mo.group(2)))
+                    need.append(mo.group(2))
+                else:
+                    f = _tsan_frame_fn(ln)
+                    cur[1].append(("fn", f or "?"))
         if cur:
             stacks.append(cur)
+        reports.append((kind, stacks, b))
+    sym = _symbolize(exe, sorted(set(need))) if exe else {}
+    out = []
+    for kind, stacks, b in reports:
         tops = []
+        text_extra = []
         for hdr, frames in stacks:
             if hdr.startswith("Thread ") or hdr.startswith("Location") or hdr.startswith("Mutex"):
                 continue
-            tops.append(">".join(frames[:3]))
+            names = []
+            for t, v in frames:
+                if t == "off":
+                    for fn in sym.get(v, ["?"]):
+                        names.append(_clean_fn(fn))
+                else:
+                    names.append(v)
+            names = [n for n in names if n and n != "?" and not any(n.startswith(x) for x in _TSAN_SKIP)]
+            text_extra.append(hdr + "\n    " + "\n    ".join(names[:12]))
+            tops.append(">".join(names[:3]))
             if len(tops) == 2:
                 break
-        out.append((kind, "|".join(sorted(tops)), b))
+        out.append((kind, "|".join(sorted(tops)), "symbolized stacks:\n" + "\n".join(text_extra) + "\n\nraw report:\n" + b))
     return out
 
 
